@@ -561,8 +561,9 @@ def judge(history, events, final, contents, pool_path, exits):
                     problem("download wrote to the pool", f"p{proc} op{op} copy {event['src']} -> {event['dst']}")
                 if name.startswith("upload") and src_is_pool:
                     problem("upload wrote to the cache", f"p{proc} op{op} copy {event['src']} -> {event['dst']}")
-            if event["ev"] == "unlink_start" and name.startswith("upload") or (event["ev"] == "unlink_start" and name == "download_local"):
-                problem("transfer removed a file", f"p{proc} op{op} {name} unlink {event['path']}")
+            if event["ev"] == "unlink_start" and (name.startswith("upload") or name == "download_local") \
+                    and not event["path"].endswith(".lock"):
+                problem("transfer removed a data file", f"p{proc} op{op} {name} unlink {event['path']}")
 
     # ---- final contents ----------------------------------------------------------------------------------------
     def describe(state):
